@@ -379,7 +379,7 @@ func main() {
 			// cache, wiped whenever it has grown past a bound, so that repeated
 			// runs against many different trees cannot fill the disk.
 			gc := filepath.Join(filepath.Dir(mcDir), ".cache", "gocache-prog")
-			if dirSizeOver(gc, 8<<30) {
+			if dirSizeOver(gc, 24<<30) {
 				exec.Command("chmod", "-R", "u+w", gc).Run()
 				os.RemoveAll(gc)
 			}
